@@ -54,6 +54,9 @@ func c03Script(c c03Case) string {
 		case "poke-show":
 			// one step of the runner: the script reads the variable, host code called by the script writes it, the script reads it again
 			fmt.Fprintf(&b, "P%d {cap($%s)}{poke(%d)}{cap($%s)}\n", i, st.Var, i, st.Var)
+		case "poke-opts":
+			// one option group: the first label reads the variable, the second calls host code that writes it, the third reads it again
+			fmt.Fprintf(&b, "-> A%d {cap($%s)}\n-> B%d {poke(%d)}\n-> C%d {cap($%s)}\nM%d\n", i, st.Var, i, i, i, st.Var, i)
 		case "poke-set":
 			// one step: read, host write, (compound) assignment
 			op := st.Op
@@ -222,7 +225,7 @@ func runC03(c c03Case) Verdict {
 			}
 		}
 		for i, st := range c.Steps {
-			if pass == 1 && atJump == nil && (st.K == "set" || st.K == "declare" || st.K == "show" || st.K == "poke-show" || st.K == "poke-set") {
+			if pass == 1 && atJump == nil && (st.K == "set" || st.K == "declare" || st.K == "show" || st.K == "poke-show" || st.K == "poke-set" || st.K == "poke-opts") {
 				// the next Next call performs the jump back to the node start: this is the state a snapshot captures
 				atJump = map[string]mval{}
 				for k, v := range m.store {
@@ -335,6 +338,31 @@ func runC03(c c03Case) Verdict {
 				if !sameVal(captured[0], old) || !sameVal(captured[1], v) {
 					return failf("within one step the script read $%s = %v, host code called by the script then wrote %v, and the script read %v: reads must go through the storer: %s", st.Var, captured[0], v, captured[1], describe(i))
 				}
+			case "poke-opts":
+				old, existed := m.store[st.Var]
+				captured = nil
+				kind, text := next()
+				if kind == "panic" {
+					return failf("Next panicked: %s: %s", text, describe(i))
+				}
+				if !existed {
+					if kind != "err" {
+						return failf("reading the unknown variable $%s must fail, got %s %q: %s", st.Var, kind, text, describe(i))
+					}
+				} else {
+					v := *st.Val
+					v.fix()
+					m.store[st.Var] = v
+					if kind != "other" || len(captured) != 2 {
+						return failf("expected an option group showing $%s twice, got %s %q (captured %v): %s", st.Var, kind, text, captured, describe(i))
+					}
+					if !sameVal(captured[0], old) || !sameVal(captured[1], v) {
+						return failf("within one option group the first label read $%s = %v, host code called by the second label wrote %v, and the third label read %v: reads must go through the storer: %s", st.Var, captured[0], v, captured[1], describe(i))
+					}
+				}
+				if kind, text = next(); kind != "line" || text != fmt.Sprintf("M%d", i) {
+					return failf("expected the marker line M%d after the option group, got %s %q: %s", i, kind, text, describe(i))
+				}
 			case "poke-set":
 				old, existed := m.store[st.Var]
 				captured = nil
@@ -414,7 +442,7 @@ func runC03(c c03Case) Verdict {
 
 func hasScriptStep(c c03Case) bool {
 	for _, s := range c.Steps {
-		if s.K == "set" || s.K == "declare" || s.K == "show" || s.K == "poke-show" || s.K == "poke-set" {
+		if s.K == "set" || s.K == "declare" || s.K == "show" || s.K == "poke-show" || s.K == "poke-set" || s.K == "poke-opts" {
 			return true
 		}
 	}
@@ -423,7 +451,7 @@ func hasScriptStep(c c03Case) bool {
 
 func hasHostWrite(c c03Case) bool {
 	for _, s := range c.Steps {
-		if s.K == "host-set" || s.K == "poke-show" || s.K == "poke-set" {
+		if s.K == "host-set" || s.K == "poke-show" || s.K == "poke-set" || s.K == "poke-opts" {
 			return true
 		}
 	}
@@ -441,9 +469,12 @@ func showC03Step(s c03Step) string {
 		return fmt.Sprintf("<<declare $%s = %s>>", s.Var, printExpr(s.E, nil))
 	case "show":
 		return "show $" + s.Var
-	case "poke-show", "poke-set":
+	case "poke-show", "poke-set", "poke-opts":
 		v := *s.Val
 		v.fix()
+		if s.K == "poke-opts" {
+			return fmt.Sprintf("in one option group: read $%s, host code writes $%s = %v, read $%s", s.Var, s.Var, v, s.Var)
+		}
 		if s.K == "poke-show" {
 			return fmt.Sprintf("in one step: read $%s, host code writes $%s = %v, read $%s", s.Var, s.Var, v, s.Var)
 		}
@@ -497,7 +528,7 @@ func genC03Expr(t *rapid.T) *Expr {
 	case 3:
 		return boolean(rapid.Bool().Draw(t, "lit"))
 	case 4, 5:
-		return str(rapid.SampledFrom([]string{"", "cd", "x", "é"}).Draw(t, "lit"))
+		return str(rapid.SampledFrom([]string{"", "cd", "x", "é", `q\"`, `\"q\"`}).Draw(t, "lit"))
 	case 6, 7:
 		return varRef(v())
 	case 8:
@@ -528,7 +559,10 @@ var c03Hist = Register(Prop[c03Case]{
 		n := rapid.IntRange(1, envInt("VERIF_C03_STEPS", 25)).Draw(t, "steps")
 		for i := 0; i < n; i++ {
 			name := rapid.SampledFrom(c03Vars).Draw(t, "var")
-			switch rapid.IntRange(0, 13).Draw(t, "step") {
+			switch rapid.IntRange(0, 14).Draw(t, "step") {
+			case 14:
+				v := genC03Value(t, rapid.SampledFrom([]byte{'n', 'n', 'b', 's'}).Draw(t, "type"))
+				c.Steps = append(c.Steps, c03Step{K: "poke-opts", Var: name, Val: &v})
 			case 12:
 				v := genC03Value(t, rapid.SampledFrom([]byte{'n', 'n', 'b', 's'}).Draw(t, "type"))
 				c.Steps = append(c.Steps, c03Step{K: "poke-show", Var: name, Val: &v})
